@@ -293,6 +293,23 @@ impl CredSoftLock {
     */
 }
 
+#[cfg(feature = "verif-hooks")]
+impl CredSoftLock {
+    pub(crate) fn verif_canon(&self) -> crate::verif_hooks::VerifSoftLockCanon {
+        match self.state {
+            LockState::Init => (0, 0, Duration::ZERO, Duration::ZERO, self.last_expire_at),
+            LockState::Locked {
+                count,
+                reset_at,
+                unlock_at,
+            } => (1, count, reset_at, unlock_at, self.last_expire_at),
+            LockState::Unlocked(count, reset_at) => {
+                (2, count, reset_at, Duration::ZERO, self.last_expire_at)
+            }
+        }
+    }
+}
+
 #[cfg(test)]
 mod tests {
     use crate::credential::softlock::*;
